@@ -107,7 +107,17 @@ mod monitor_native_begin {}
                 self.log.push(format!("{} -> {}", short(&message), rep_str(r)));
             }
             let r = self.mon.exchange_with(&message, r);
-            reply_value(r)
+            match reply_value(r) {
+                // a bus error is a bus error whatever its concrete type: rotate through the ones real buses produce
+                Err(e) => Err(match coin % 5 {
+                    0 => Box::new(std::io::Error::from(std::io::ErrorKind::TimedOut)) as Box<dyn Error + Send + Sync>,
+                    1 => Box::new(std::io::Error::new(std::io::ErrorKind::Other, "bus")),
+                    2 => Box::new(flipdot::core::FrameError::Io { source: std::io::Error::from(std::io::ErrorKind::TimedOut) }),
+                    3 => "bus failure".into(),
+                    _ => e,
+                }),
+                ok => ok,
+            }
         }
     }
     fn short(m: &Message<'_>) -> String {
@@ -163,63 +173,88 @@ pub fn search_controller(rng: &mut Rng, trials: usize) -> Option<Cex> {
         let mut pages: Vec<Page<'static>> = vec![];
         for i in 0..n_pages.min(3) {
             let (w, h) = if big { SIZES[4 + rng.below(3) as usize] } else { SIZES[rng.below(4) as usize] };
-            let mut p = Page::new(PageId(i as u8), w, h);
+            let mut p = Page::new(PageId(if trial % 3 == 0 { 7 } else { i as u8 }), w, h); // every third list: all pages carry the same id
             p.set_pixel(rng.next() as u32 % w, rng.next() as u32 % h, true);
             pages.push(p);
         }
-        let (kind, phase) = match opk {
-            0 | 1 => (Kind::Configure, Phase::Hello0),
-            2 => (Kind::Configure, Phase::IfNeededHello),
-            3 => (Kind::ShutDown, Phase::Goodbye),
-            4 | 5 => (Kind::Switch, Phase::SwitchQuery),
-            _ => (Kind::SendPages, Phase::ReqRecv),
+        let make_mon = |opk: u64| -> (Bus, &'static str) {
+            let (kind, phase) = match opk {
+                0 | 1 => (Kind::Configure, Phase::Hello0),
+                2 => (Kind::Configure, Phase::IfNeededHello),
+                3 => (Kind::ShutDown, Phase::Goodbye),
+                4 | 5 => (Kind::Switch, Phase::SwitchQuery),
+                _ => (Kind::SendPages, Phase::ReqRecv),
+            };
+            let mut mon = Bus::new(own, kind, phase);
+            mon.max_msgs = usize::MAX;
+            mon.max_polls = usize::MAX;
+            let opname;
+            match opk {
+                0 | 1 | 2 => {
+                    mon.n_items = 1;
+                    mon.items[0] = (core::ptr::null(), 16);
+                    let b = t.to_bytes();
+                    for i in 0..16 { mon.config[i] = b[i]; }
+                    opname = if opk == 2 { "configure_if_needed" } else { "configure" };
+                }
+                3 => opname = "shut_down",
+                4 => { mon.sw_target = S_SHOWN; mon.sw_trigger = S_LOADED; mon.sw_op = O_SHOW; opname = "show_loaded_page"; }
+                5 => { mon.sw_target = S_LOADED; mon.sw_trigger = S_SHOWN; mon.sw_op = O_LOAD_NEXT; opname = "load_next_page"; }
+                _ => {
+                    mon.recv_op = O_RECV_PIX; mon.success = S_PIX_RECV; mon.failure = S_PIX_FAIL;
+                    mon.n_items = pages.len();
+                    for (i, p) in pages.iter().enumerate() { mon.items[i] = (p.as_bytes().as_ptr(), p.as_bytes().len()); }
+                    opname = "send_pages";
+                }
+            }
+            (mon, opname)
         };
         kani::OWN.with(|o| *o.borrow_mut() = own);
-        let mut mon = Bus::new(own, kind, phase);
-        mon.max_msgs = usize::MAX;
-        mon.max_polls = usize::MAX;
-        let mut opname = "";
-        match opk {
-            0 | 1 | 2 => {
-                mon.n_items = 1;
-                mon.items[0] = (core::ptr::null(), 16);
-                let b = t.to_bytes();
-                for i in 0..16 { mon.config[i] = b[i]; }
-                opname = if opk == 2 { "configure_if_needed" } else { "configure" };
-            }
-            3 => opname = "shut_down",
-            4 => { mon.sw_target = S_SHOWN; mon.sw_trigger = S_LOADED; mon.sw_op = O_SHOW; opname = "show_loaded_page"; }
-            5 => { mon.sw_target = S_LOADED; mon.sw_trigger = S_SHOWN; mon.sw_op = O_LOAD_NEXT; opname = "load_next_page"; }
-            _ => {
-                mon.recv_op = O_RECV_PIX; mon.success = S_PIX_RECV; mon.failure = S_PIX_FAIL;
-                mon.n_items = pages.len();
-                for (i, p) in pages.iter().enumerate() { mon.items[i] = (p.as_bytes().as_ptr(), p.as_bytes().len()); }
-                opname = "send_pages";
-            }
-        }
+        let (mon, mut opname) = make_mon(opk);
         let bus = Rc::new(RefCell::new(NativeBus { mon, seed: rng.next() | 1, p_continue, log: vec![], switch_budget: 12 }));
         let dynbus: Rc<RefCell<dyn SignBus>> = bus.clone();
         let sign = Sign::new(dynbus, Address(own), t);
-        let res: Result<Option<String>, ()> = catch_unwind(AssertUnwindSafe(|| {
-            match opk {
-                0 | 1 => { let r = sign.configure(); let o = outcome_of(&r); post(&bus.borrow().mon, o, true) }
-                2 => { let r = sign.configure_if_needed(); let o = outcome_of(&r); post(&bus.borrow().mon, o, true) }
-                3 => { let r = sign.shut_down(); let o = outcome_of(&r); post(&bus.borrow().mon, o, false) }
-                4 => { let r = sign.show_loaded_page(); let o = outcome_of(&r); post(&bus.borrow().mon, o, false) }
-                5 => { let r = sign.load_next_page(); let o = outcome_of(&r); post(&bus.borrow().mon, o, false) }
-                _ => {
-                    let r = sign.send_pages(&pages);
-                    let o = outcome_of(&r);
-                    let b = bus.borrow();
-                    if let (Ok(style), Outcome::OkAutomatic | Outcome::Ok) = (&r, b.mon.outcome) {
-                        let want = if b.mon.outcome == Outcome::OkAutomatic { PageFlipStyle::Automatic } else { PageFlipStyle::Manual };
-                        if *style != want { return Some(format!("flip style {:?} reported, the protocol prescribes {:?}", style, want)); }
+        let run_op = |opk: u64| -> Result<Option<String>, ()> {
+            catch_unwind(AssertUnwindSafe(|| {
+                match opk {
+                    0 | 1 => { let r = sign.configure(); let o = outcome_of(&r); post(&bus.borrow().mon, o, true) }
+                    2 => { let r = sign.configure_if_needed(); let o = outcome_of(&r); post(&bus.borrow().mon, o, true) }
+                    3 => { let r = sign.shut_down(); let o = outcome_of(&r); post(&bus.borrow().mon, o, false) }
+                    4 => { let r = sign.show_loaded_page(); let o = outcome_of(&r); post(&bus.borrow().mon, o, false) }
+                    5 => { let r = sign.load_next_page(); let o = outcome_of(&r); post(&bus.borrow().mon, o, false) }
+                    _ => {
+                        let r = sign.send_pages(&pages);
+                        let o = outcome_of(&r);
+                        let b = bus.borrow();
+                        if let (Ok(style), Outcome::OkAutomatic | Outcome::Ok) = (&r, b.mon.outcome) {
+                            let want = if b.mon.outcome == Outcome::OkAutomatic { PageFlipStyle::Automatic } else { PageFlipStyle::Manual };
+                            if *style != want { return Some(format!("flip style {:?} reported, the protocol prescribes {:?}", style, want)); }
+                        }
+                        post(&b.mon, o, false)
                     }
-                    post(&b.mon, o, false)
                 }
+            })).map_err(|_| ())
+        };
+        let mut res = run_op(opk);
+        let mut first_script = String::new();
+        if let Ok(None) = res {
+            // A SECOND operation on the SAME controller object, judged by a fresh monitor: the controller keeps no
+            // protocol state between operations, so what it does now may depend only on the replies it gets now.
+            let opk2 = [4u64, 5, 3, 0, 2, 6, 4, 5][rng.below(8) as usize];
+            if trial % 2 == 0 {
+                let (mon2, name2) = make_mon(opk2);
+                {
+                    let mut b = bus.borrow_mut();
+                    first_script = format!("{} [{}] then ", opname, b.log.join("; "));
+                    b.mon = mon2;
+                    b.log.clear();
+                    b.switch_budget = 12;
+                }
+                opname = name2;
+                res = run_op(opk2);
             }
-        })).map_err(|_| ());
-        let describe = |b: &NativeBus| format!("{} own={:04X} type={:?} pages={:?} script=[{}]", opname, own, t, pages.iter().map(|p| p.as_bytes().len()).collect::<Vec<_>>(), b.log.join("; "));
+        }
+        let describe = |b: &NativeBus| format!("{}{} own={:04X} type={:?} pages={:?} script=[{}]", first_script, opname, own, t, pages.iter().map(|p| p.as_bytes().len()).collect::<Vec<_>>(), b.log.join("; "));
         match res {
             Ok(None) => {}
             Ok(Some(msg)) => { let b = bus.borrow(); return Some(Cex { domain: "controller", input: describe(&b), expected: "the documented protocol (monitor of C09/C10/C11)".into(), actual: msg }); }
